@@ -284,31 +284,133 @@ Proof. intros. apply uncatchable_loop. auto. Qed.
 Lemma handleThrow_shrinks : forall p s, (length (ts (fst (handle_throw p s))) <= length (ts s))%nat.
 Proof. intros. apply handle_loop_shrinks. Qed.
 
-(* ---- the recorded deviations of the current tree, exhibited by the faithful model (vm_compute witnesses) ---- *)
-Definition idle_after (lim : option nat) (faults : list (nat * fkind)) (fixed : bool) (a : api) : bool :=
-  idle_full (fst (api_exec lim faults fixed 80 a init)).
-Definition deviations (lim : option nat) (faults : list (nat * fkind)) (a : api) : list nat :=
-  leaked (fst (api_exec lim faults false 80 a init)).
+(* ---- the former findings F16, F17, F21, F22 (all repaired in /repo): their witnesses are idle ---- *)
+Definition idle_after (lim : option nat) (faults : list (nat * fkind)) (a : api) : bool :=
+  idle_full (fst (api_exec lim faults true 80 a init)).
 
 Definition w16 := ARun [Gen [Probe]].                        (* gen().next() interrupted inside the body *)
 Definition w16b := ARun [Call [Gen [Probe]]].                (* limit 3: overflow inside the resumption *)
-Definition w17 := ARun [Call []].                            (* limit 0: top-level stack overflow (repaired, 60d9770) *)
+Definition w16c := ARun [Async [] [Probe]].                  (* async continuation interrupted *)
+Definition w17 := ARun [Call []].                            (* limit 0: top-level stack overflow *)
 Definition w21 := ARun [Call [Native [NRun false [Probe]]]]. (* limit 2: re-entrant RunString at the limit *)
 Definition w22 := ARun [Then [Effect 7]; Probe].             (* foreign Go panic with a job pending *)
 
-Lemma idle_refuted_F16 : exists lim faults a,
-  idle_after lim faults false a = false /\ idle_after lim faults true a = true /\ deviations lim faults a = [16%nat].
-Proof. exists None, [(0%nat, FIntr)], w16. vm_compute. auto. Qed.
-Lemma idle_refuted_F16_overflow : exists lim faults a,
-  idle_after lim faults false a = false /\ idle_after lim faults true a = true /\ deviations lim faults a = [16%nat].
-Proof. exists (Some 3%nat), [], w16b. vm_compute. auto. Qed.
-Lemma idle_refuted_F22 : exists lim faults a,
-  idle_after lim faults false a = false /\ idle_after lim faults true a = true /\ deviations lim faults a = [22%nat; 22%nat].
-Proof. exists None, [(0%nat, FGo)], w22. vm_compute. auto. Qed.
-Lemma idle_F17_repaired : idle_after (Some 0%nat) [] false w17 = true /\ deviations (Some 0%nat) [] w17 = [].
-Proof. vm_compute. auto. Qed.
+Lemma former_findings_repaired :
+  idle_after None [(0%nat, FIntr)] w16 = true /\ idle_after (Some 3%nat) [] w16b = true /\
+  idle_after None [(0%nat, FIntr)] w16c = true /\ idle_after (Some 0%nat) [] w17 = true /\
+  idle_after (Some 2%nat) [] w21 = true /\ idle_after None [(0%nat, FGo)] w22 = true.
+Proof. vm_compute. auto 10. Qed.
 
-(* F21: the registers the native function sees after the re-entrant RunString returned differ from those before *)
-Definition nested_regs (fixed : bool) : list snap := trace (fst (api_exec (Some 2%nat) [] fixed 80 w21 init)).
-Lemma nested_refuted_F21 : nested_regs false <> nested_regs true /\ deviations (Some 2%nat) [] w21 = [21%nat].
-Proof. vm_compute. split; [discriminate|reflexivity]. Qed.
+(* ---- the job queue after an outermost RunProgram / Callable (current algorithm) ---- *)
+Lemma leave_norm_jq : forall lim faults fixed fuel s s',
+  leave lim faults fixed fuel s = (s', ONorm) -> jq s' = [].
+Proof.
+  intros lim faults fixed. induction fuel as [|f IH]; intros s s' H. { simpl in H. discriminate. }
+  rewrite leave_S in H. destruct (jq s) eqn:J. { inversion H; subst. exact J. }
+  destruct (run_batch lim fixed (Model.exec lim faults fixed f) (j :: l) (set_jq [] s)) as [s1 o].
+  destruct o; try discriminate. eapply IH; eauto.
+Qed.
+
+Definition go_outcome (o : outcome) : Prop := o = ONorm \/ exists p, o = OPanic p.
+
+Lemma top_recover_jq : forall inb s p,
+  length (cs (fst (fst (top_recover true inb s p)))) = 0%nat -> jq (fst (fst (top_recover true inb s p))) = [].
+Proof.
+  intros inb s p. unfold top_recover. destruct (uncatchable_err p); cbn [fst].
+  - destruct (Nat.eqb (length (cs (top_fin s))) 0) eqn:E; [reflexivity|]. intros H. apply Nat.eqb_neq in E. contradiction.
+  - unfold host_panic_exit. cbn [cs set_sb set_prg].
+    destruct (Nat.eqb (length (cs (top_fin s))) 0) eqn:E; [reflexivity|]. cbn. intros H. apply Nat.eqb_neq in E. contradiction.
+Qed.
+
+Lemma top_leave_jq : forall lim faults f s2 err,
+  go_outcome (snd (fst (top_leave true (Model.leave lim faults true f) s2 err))) ->
+  length (cs (fst (fst (top_leave true (Model.leave lim faults true f) s2 err)))) = 0%nat ->
+  jq (fst (fst (top_leave true (Model.leave lim faults true f) s2 err))) = [].
+Proof.
+  intros lim faults f s2 err. unfold top_leave.
+  destruct (Model.leave lim faults true f (set_sb (-1) (set_prg false (pop_try s2)))) as [s3 o] eqn:E.
+  destruct o; cbn [fst snd]; intros G; try (destruct G as [G|(q & G)]; discriminate).
+  - intros _. unfold top_fin. cbn. eapply leave_norm_jq; eauto.
+  - apply top_recover_jq.
+Qed.
+
+Lemma run_top_jq : forall lim faults fuel body s,
+  go_outcome (snd (fst (Model.run_top lim faults true fuel body s))) ->
+  length (cs (fst (fst (Model.run_top lim faults true fuel body s)))) = 0%nat ->
+  jq (fst (fst (Model.run_top lim faults true fuel body s))) = [].
+Proof.
+  intros lim faults fuel body s. destruct fuel as [|f]. { simpl. intros [G|(q & G)]; discriminate. }
+  change (Model.run_top lim faults true (S f) body s)
+    with (run_top_step true (Model.exec lim faults true f) (Model.leave lim faults true f) body s).
+  unfold run_top_step.
+  destruct (loop_out (run_items (Model.exec lim faults true f) body
+              (push_try true false false (set_prg true (set_cs (halt_ctx :: cs s) s))))) as [s2 o].
+  destruct o; try (cbn [fst snd]; intros [G|(q & G)]; discriminate).
+  - apply top_leave_jq.
+  - destruct (catchable p). apply top_leave_jq. intros _. apply top_recover_jq.
+Qed.
+
+Lemma run_wrapped_jq : forall lim faults f body s,
+  go_outcome (snd (fst (run_wrapped lim true (Model.exec lim faults true f) (Model.leave lim faults true f) body s))) ->
+  length (cs (fst (fst (run_wrapped lim true (Model.exec lim faults true f) (Model.leave lim faults true f) body s)))) = 0%nat ->
+  jq (fst (fst (run_wrapped lim true (Model.exec lim faults true f) (Model.leave lim faults true f) body s))) = [].
+Proof.
+  intros lim faults f body s. unfold run_wrapped.
+  assert (Hrec : forall s1 p, length (cs (fst (fst (recover_wrapped true s1 p)))) = 0%nat ->
+                              jq (fst (fst (recover_wrapped true s1 p))) = []).
+  { intros s1 p. unfold recover_wrapped. destruct (uncatchable_err p); cbn [fst].
+    - destruct (Nat.eqb (length (cs s1)) 0) eqn:E; [reflexivity|]. intros H. apply Nat.eqb_neq in E. contradiction.
+    - unfold host_panic_exit. destruct (Nat.eqb (length (cs s1)) 0) eqn:E; [reflexivity|]. intros H. apply Nat.eqb_neq in E. contradiction. }
+  assert (Htail : forall s1 err,
+            go_outcome (snd (fst (wrapped_tail true (Model.leave lim faults true f) s1 err))) ->
+            length (cs (fst (fst (wrapped_tail true (Model.leave lim faults true f) s1 err)))) = 0%nat ->
+            jq (fst (fst (wrapped_tail true (Model.leave lim faults true f) s1 err))) = []).
+  { intros s1 err. unfold wrapped_tail. destruct (Nat.eqb (length (cs s1)) 0) eqn:E.
+    - destruct (Model.leave lim faults true f s1) as [s2 o] eqn:El.
+      destruct o; cbn [fst snd]; intros G; try (destruct G as [G|(q & G)]; discriminate).
+      + intros _. eapply leave_norm_jq; eauto.
+      + apply Hrec.
+    - cbn [fst snd]. intros _ H. apply Nat.eqb_neq in E. contradiction. }
+  destruct (vm_try (reentry lim (Model.exec lim faults true f) 0 body) s) as [s1 o].
+  destruct o; try (cbn [fst snd]; intros [G|(q & G)]; discriminate).
+  - apply Htail.
+  - apply Htail.
+  - intros _. apply Hrec.
+Qed.
+
+(* idle, and the job queue empty, after every outermost RunProgram / Callable of the current algorithm *)
+Theorem idle_restored_jobs : forall lim faults fuel body st,
+  idle_regs st = true ->
+  (snd (api_exec lim faults true fuel (ARun body) st) <> RStuck ->
+   idle_regs (fst (api_exec lim faults true fuel (ARun body) st)) = true /\
+   jq (fst (api_exec lim faults true fuel (ARun body) st)) = []) /\
+  (snd (api_exec lim faults true fuel (ACall body) st) <> RStuck ->
+   idle_regs (fst (api_exec lim faults true fuel (ACall body) st)) = true /\
+   jq (fst (api_exec lim faults true fuel (ACall body) st)) = []).
+Proof.
+  intros lim faults fuel body st Hi.
+  pose proof (idle_regs_spec st Hi) as (_ & _ & _ & _ & _ & Hcs & _).
+  split; intros Hs.
+  - pose proof (idle_restored lim faults fuel (ARun body) st Hi Hs) as I1. split; [exact I1|].
+    apply idle_regs_spec in I1. destruct I1 as (_ & _ & _ & _ & _ & Hcs' & _).
+    simpl in *. destruct fuel as [|f]. { simpl in Hs. congruence. }
+    rewrite exec_S in *. simpl in *. rewrite Hcs in *. simpl in *.
+    pose proof (run_top_jq lim faults f body st) as J.
+    destruct (Model.run_top lim faults true f body st) as [[s1 o] e]. simpl in J.
+    destruct o; simpl in *; try congruence.
+    + destruct e as [p|]; simpl in *.
+      * unfold policy in *. rewrite andb_false_r in *. simpl in *. apply J; [left; reflexivity | rewrite Hcs'; reflexivity].
+      * apply J; [left; reflexivity | rewrite Hcs'; reflexivity].
+    + apply J. right; eauto. rewrite Hcs'. reflexivity.
+  - pose proof (idle_restored lim faults fuel (ACall body) st Hi Hs) as I1. split; [exact I1|].
+    apply idle_regs_spec in I1. destruct I1 as (_ & _ & _ & _ & _ & Hcs' & _).
+    simpl in *. destruct fuel as [|f]. { simpl in Hs. congruence. }
+    rewrite exec_S in *. simpl in *.
+    pose proof (run_wrapped_jq lim faults f body st) as J.
+    destruct (run_wrapped lim true (Model.exec lim faults true f) (Model.leave lim faults true f) body st) as [[s1 o] e]. simpl in J.
+    destruct o; simpl in *; try congruence.
+    + destruct e as [p|]; simpl in *.
+      * unfold policy in *. rewrite andb_false_r in *. simpl in *. apply J; [left; reflexivity | rewrite Hcs'; reflexivity].
+      * apply J; [left; reflexivity | rewrite Hcs'; reflexivity].
+    + apply J. right; eauto. rewrite Hcs'. reflexivity.
+Qed.
